@@ -5,7 +5,7 @@
     implementation on every check run (Model/HeaderRun.v, [c07_step] is the
     very function the histories below are made of). *)
 From Coq Require Import ZArith List Bool.
-From Hts Require Import Base.Prim Model.Header Model.HeaderRun Proofs.HeaderInv Proofs.HeaderWorld Proofs.HeaderHist.
+From Hts Require Import Base.Prim Model.Header Model.HeaderRun Proofs.HeaderInv Proofs.HeaderWorld Proofs.HeaderHist Proofs.HeaderMerge.
 Import ListNotations.
 Open Scope Z_scope.
 
@@ -13,19 +13,35 @@ Open Scope Z_scope.
     (New*/Clone of items, NewHeader from references or text, @HD field and
     comment edits, Add/Remove/SetName for the three kinds of items,
     Header.Clone, MergeHeaders, UnmarshalText of further lines, binary
-    decode), error results included, for any time and URI parsers: the run
-    ends in a state where HInv holds for every header.  No operation blocks,
-    and none panics — except that the final link resolution of MergeHeaders is
-    not covered here (that is what "partial" refers to; see merge theorems). *)
-Theorem header_inv_preserved_partial :
+    decode), error results included, for any time and URI parsers: every
+    operation returns (no panic, no blocking) and the run ends in a state
+    where HInv holds for every header.  Every prefix of a history is a
+    history, so HInv holds in every reachable state. *)
+Theorem header_inv_preserved :
   forall (parse_time parse_uri : str -> option str) (ops : list c07op),
-    match c07_exec parse_time parse_uri world0 env0 ops with
-    | Ok (w, e) => WInv w
-    | Panic _ => exists op, In op ops /\ is_merge op = true
-    | _ => False
-    end.
-Proof. exact header_inv_all_histories. Qed.
-Print Assumptions header_inv_preserved_partial.
+    exists w e, c07_exec parse_time parse_uri world0 env0 ops = Ok (w, e) /\ WInv w.
+Proof. exact header_inv_every_history. Qed.
+Print Assumptions header_inv_preserved.
+
+(** One step from any state that satisfies HInv (not only reachable ones):
+    the step returns, with or without an error value, and HInv holds again. *)
+Theorem header_inv_step :
+  forall (parse_time parse_uri : str -> option str) w e op, WInv w -> EnvOK w e ->
+    exists w' e' c l, c07_step parse_time parse_uri w e op = Ok (w', e', c, l) /\ WInv w' /\ EnvOK w' e'.
+Proof. exact c07_step_total. Qed.
+Print Assumptions header_inv_step.
+
+(** MergeHeaders of two or more headers of a world that satisfies HInv
+    returns; HInv holds afterwards; and when it succeeds, the links it returns
+    pair every reference of every source (in order) with a reference that the
+    merged header owns and lists at its id, with the same name and length. *)
+Theorem merge_links :
+  forall w s0 srcs, WInv w -> (s0 < length (w_h w))%nat -> (forall s, In s srcs -> (s < length (w_h w))%nat) ->
+  exists w' e links, merge_headers w s0 srcs = Ok (w', e, links) /\ WInv w' /\ Ext w w' /\
+    (length (w_h w) < length (w_h w'))%nat /\
+    (e = 0 -> Forall2 (links_good w w' (length (w_h w))) (s0 :: srcs) links).
+Proof. exact merge_headers_spec. Qed.
+Print Assumptions merge_links.
 
 (** What WInv says: in every header, for references, read groups and
     programs alike, the i-th listed item is owned by the header and has id i,
@@ -58,6 +74,26 @@ Example hinv_example :
                  | Some hd => t_items (h_R hd) = [1%nat; 3%nat] /\ map (fun o => o_id o) (w_r w) = [-1; 0; -1; 1]
                  | None => False
                  end
+  | _ => False
+  end.
+Proof. vm_compute. split; reflexivity. Qed.
+
+(** Non-vacuity of merge_links: three headers whose common reference C carries
+    conflicting checksums (the case in which the unrepaired code returned a
+    link to a released reference): every link is owned and listed (first
+    component 1), id 0, named C, length 10. *)
+Example merge_example :
+  let none := fun _ : str => @None str in
+  let X := [1;1;1;1;1;1;1;1;1;1;1;1;1;1;1;1] in
+  let Y := [2;2;2;2;2;2;2;2;2;2;2;2;2;2;2;2] in
+  match c07_exec none none world0 env0
+          [ONewRef [67] 10 X [] [] []; ONewRef [67] 10 Y [] [] []; ONewRef [67] 10 X [] [] [];
+           ONewHdr None [0]; ONewHdr None [1]; ONewHdr None [2]] with
+  | Ok (w, e) =>
+    match c07_step none none w e (OMerge [0; 1; 2]) with
+    | Ok (_, _, c, Some links) => c = 0 /\ links = [[(1, 0, [67], 10)]; [(1, 0, [67], 10)]; [(1, 0, [67], 10)]]
+    | _ => False
+    end
   | _ => False
   end.
 Proof. vm_compute. split; reflexivity. Qed.
